@@ -19,7 +19,17 @@ Correspondence, on random respondent-level surveys (harness/props/cube_util.py, 
 Because Props/C01.v proves model(tabulate S) = respondent-level count, (a)+(c) make every
 disagreement a concrete failing input of the property; (b) is the direct search oracle.
 
+  (e) BY ELEMENT ID: the counts of every partition keyed by the element ids the implementation
+      reports for its dimensions (Cube.dimensions[..].valid_elements.element_ids) vs. the
+      respondent-level counts keyed by the ids of the survey's categories / items - which count
+      belongs to which category is decided by the respondents, not by position; and, for dimensions
+      whose TYPE DEFINITION carries an "order" list, Model/TypedefOrder.v evaluated inside Coq on the
+      catalogue + order list vs. the ids and payload offsets (element_idxs) of the implementation's
+      valid elements; the counts model (a) is then fed the dimension derived from the typedef.
+
 Case families: 'std' (cube_util.gen_case: every Cat/Mr/Arr class pair, 1-D..3-D, CA-as-0th),
+'tdorder' (the same shapes with typedef orders: permuted catalogues, categories the order list leaves
+out, codes the catalogue does not know, missing elements anywhere - see c01_shapes.py),
 'numarr' (numeric arrays alone / by cat / by MR / by cat x cat / three grouping axes), 'nub'
 (no dimension), 'typed' (dimensions that stress the type detection) -- see c01_shapes.py.
 """
@@ -52,6 +62,10 @@ def impl_cube_level(case):
     def f():
         c = impl.cube(case["response"], cube_idx=cube_idx)
         out = {"dimension_types": [t.name for t in c.dimension_types]}
+        out["dims"] = impl.guarded(lambda: [
+            {"alias": d.alias, "type": d.dimension_type.name,
+             "ids": [impl.tolist(x) for x in d.valid_elements.element_ids],
+             "idxs": [int(x) for x in d.valid_elements.element_idxs]} for d in c.dimensions])
         for n in CUBE_NAMES:
             r = impl.get(c, n)
             out[n] = (r[0], impl.tolist(r[1])) if r[0] == "ok" else r
@@ -101,7 +115,10 @@ def build(case, with_tab):
     if fam in ("nub", "numarr") or case["k"] % 4 == 0:
         terms.extend(cube_numeric_terms(case, ds))
     terms.append(("types", sh.types_term(case)))
-    if with_tab and fam in ("std", "typed"):
+    for n, a in enumerate(case["_axes"]):
+        if a.get("typedef") is not None:
+            terms.append(("typedef:%d" % n, "r_typedef %s" % cu.g_typedef(a["typedef"])))
+    if with_tab and fam in ("std", "typed", "tdorder"):
         terms.append(("tabulate", cu.tabulate_term(case)))
     return io, terms
 
@@ -134,7 +151,7 @@ def compare(case, io, terms, results):
         return [{"what": "exception", "impl": io["error"][1:]}]
     parts = io["parts"]
     sv = case["_sv"]
-    oracle = cu.Oracle(sv, case["_axes"]) if fam in ("std", "typed") else None
+    oracle = cu.Oracle(sv, case["_axes"]) if fam in ("std", "typed", "tdorder") else None
     na = sh.NumArrOracle(case) if fam == "numarr" else None
     nub = sh.nub_expected(case) if fam == "nub" else None
     use_oracle = not has_valid_counts(case)
@@ -283,12 +300,36 @@ def compare(case, io, terms, results):
                 if [sh.type_class(t) for t in it] != want:
                     fails.append({"what": "dimension_types", "impl": it, "expected": want,
                                   "oracle": "survey"})
+        elif kind.startswith("typedef:"):
+            n = int(kind[8:])
+            ax = case["_axes"][n]
+            d0 = core.Dec(toks)
+            flags = d0.list(d0.bool)
+            ids = d0.list(d0.Z)
+            idxs = d0.list(d0.Z)
+            assert d0.done()
+            if flags != [bool(m) for m in ax["missing"]]:
+                # Model/TypedefOrder.v does not give the generator's payload order: harness / model
+                fails.append({"what": "typedef order (Coq) vs the generator's payload order",
+                              "model": flags, "generator": ax["missing"], "no_impl": True})
+            idim = impl_dim_of_axis(case, io, n)
+            if idim is None:
+                fails.append({"what": "typedef order: dimension not found", "axis": n,
+                              "impl": cube[1].get("dims") if cube[0] == "ok" else cube[1:]})
+            elif idim["idxs"] != idxs or [json.dumps(x) for x in idim["ids"]] != \
+                    [json.dumps(x) for x in model_ids(case, ax, ids)]:
+                fails.append({"what": "typedef order: valid element ids / payload offsets", "axis": n,
+                              "impl": {"ids": idim["ids"], "element_idxs": idim["idxs"]},
+                              "model": {"ids": ids, "element_idxs": idxs}, "typedef": ax["typedef"],
+                              "oracle": "model"})
         elif kind == "tabulate":
             mv = core.Dec(toks).vec()
             exp = cu.natural_weighted_tensor(case)
             if mv != exp:
                 fails.append({"what": "tabulate(Coq Spec) vs generator payload", "coq": mv,
                               "python": exp, "no_impl": True})
+    if cube[0] == "ok" and fam != "nub":
+        fails.extend(keyed_checks(case, io, oracle if use_oracle else None))
     # numeric measures that the response does not carry must raise ValueError, not invent values
     meas = case["response"]["result"]["measures"]
     for m, pub in cu.NUMERIC_NAMES.items():
@@ -296,6 +337,119 @@ def compare(case, io, terms, results):
             for k, ip in enumerate(parts):
                 if pub in ip and ip[pub][0] == "ok" and ip[pub][1] is not None:
                     fails.append({"what": pub + ":absent-measure-has-value", "part": k})
+    return fails
+
+
+def apparent_axes(case):
+    return [(n, a) for n, a in enumerate(case["_axes"]) if a["role"] not in ("mr_sel", "numarr")]
+
+
+def impl_dims(case, io):
+    """[{alias, type, ids, idxs}] of the implementation's apparent dimensions that stand for the
+    axes of the response (a numeric-array dimension, which is no axis of the response's own
+    dimensions, is dropped), or None"""
+    cube = io["cube"]
+    if cube[0] != "ok" or cube[1]["dims"][0] != "ok":
+        return None
+    return [d for d in cube[1]["dims"][1] if d["type"] != "NUM_ARRAY"]
+
+
+def impl_dim_of_axis(case, io, n):
+    dims = impl_dims(case, io)
+    ap = [k for k, _a in apparent_axes(case)]
+    if dims is None or len(dims) != len(ap) or n not in ap:
+        return None
+    return dims[ap.index(n)]
+
+
+def model_ids(case, ax, ids):
+    """the model's integer ids as the implementation names them (a datetime element is known by
+    its value, C19)"""
+    v = case["_sv"].var(ax["alias"])
+    if v.kind == "datetime":
+        by_id = {e["id"]: e["value"] for e in v.elements}
+        return [by_id.get(i, i) for i in ids]
+    return ids
+
+
+def keyed_map(values, ids, prefix=()):
+    """nested list + ids per axis -> {(id, ...): value}; None when shape and ids do not fit"""
+    out = {}
+
+    def rec(x, depth, key):
+        if depth == len(ids):
+            out[key] = x
+            return True
+        if not isinstance(x, list) or len(x) != len(ids[depth]):
+            return False
+        return all(rec(y, depth + 1, key + (json.dumps(ids[depth][i]),)) for i, y in enumerate(x))
+
+    return out if rec(values, 0, tuple(prefix)) else None
+
+
+def keyed_checks(case, io, oracle):
+    """(e) of the module docstring: element ids of every apparent dimension, and the counts of
+    every partition keyed by them, vs the survey"""
+    fails = []
+    sv = case["_sv"]
+    dims = impl_dims(case, io)
+    ap = [a for _n, a in apparent_axes(case)]
+    if dims is None:
+        return [{"what": "Cube.dimensions[..].valid_elements.element_ids", "impl": io["cube"][1]["dims"][1:],
+                 "no_impl": True}]
+    if len(dims) != len(ap):
+        if family(case) == "typed":
+            return []          # dimension-type look-alikes: the number of dimensions is (d)'s matter
+        return [{"what": "number of apparent dimensions", "impl": [d["type"] for d in dims],
+                 "survey_axes": [a["role"] for a in ap], "oracle": "survey"}]
+    exp_ids = [cu.axis_expected_ids(sv, a) for a in ap]
+    impl_ids = [d["ids"] for d in dims]
+    if oracle is None or family(case) == "numarr":
+        # no respondent-level counts to key (valid-count measures / numeric arrays, whose positional
+        # oracle is the statistic's): the ids themselves must be the survey's, in payload order
+        for a, e, i in zip(ap, exp_ids, impl_ids):
+            if [json.dumps(x) for x in e] != [json.dumps(x) for x in i]:
+                fails.append({"what": "element ids of dimension " + a["alias"], "impl": i, "expected": e,
+                              "oracle": "survey"})
+        return fails
+    parts = io["parts"]
+    ca0 = bool(case.get("ca_as_0th"))
+    slices = len(ap) >= 2 and not ca0
+    for name, weighted in (("counts", sv.weighted), ("unweighted_counts", False)):
+        mi, me = {}, {}
+        ok = True
+        for k, ip in enumerate(parts):
+            r = ip.get(name)
+            if r is None or r[0] != "ok" or r[1] is None:
+                ok = False
+                break
+            if slices:
+                n_t = len(ap) - 2
+                exp = oracle.slice_cells(k, "in", "in", weighted)
+            else:
+                n_t = len(ap) - 1 if ca0 else 0
+                exp = oracle.strand_cells(k, "in", weighted, ca0=ca0)
+            if n_t and (k >= len(impl_ids[0]) or k >= len(exp_ids[0])):
+                ok = False
+                break
+            a = keyed_map(r[1], impl_ids[n_t:], [json.dumps(impl_ids[0][k])] if n_t else [])
+            b = keyed_map(exp, exp_ids[n_t:], [json.dumps(exp_ids[0][k])] if n_t else [])
+            if a is None or b is None:
+                ok = False          # a shape problem: reported by the positional comparison
+                break
+            mi.update(a)
+            me.update(b)
+        if not ok:
+            continue
+        if set(mi) != set(me):
+            fails.append({"what": name + " by element id: elements shown",
+                          "only_impl": sorted(set(mi) - set(me))[:6], "only_survey": sorted(set(me) - set(mi))[:6],
+                          "oracle": "survey"})
+            continue
+        bad = [(key, mi[key], me[key]) for key in sorted(me) if not core.close(float(mi[key]), me[key])]
+        if bad:
+            fails.append({"what": name + " by element id", "cell_ids": list(bad[0][0]), "impl": bad[0][1],
+                          "respondents": bad[0][2], "n_cells_wrong": len(bad), "oracle": "survey"})
     return fails
 
 
@@ -357,12 +511,38 @@ def describe(rep, case):
     if fam == "typed":
         for m in case.get("modes", []):
             rep.dist("typed:" + m)
+    tds = [(a, sv.var(a["alias"])) for a in ap if a.get("typedef") is not None]
+    for a, v in tds:
+        td = a["typedef"]
+        kind = "ca_cats" if v.kind == "ca" else v.kind
+        rep.dist("typedef_order:dim=" + kind)
+        rep.dist("typedef_order:ndim=%d" % len(ap))
+        known = [i for i, _m in td["defs"]]
+        pay = [c for c in td["order"] if c in known]
+        rep.dist("typedef_order:" + ("identity" if pay == known else "catalogue_permuted"))
+        if len(pay) < len(known):
+            rep.dist("typedef_order:categories_not_listed")
+        if len(pay) < len(td["order"]):
+            rep.dist("typedef_order:unknown_codes_in_list")
+        fl = a["missing"]
+        if any(m and not all(fl[n:]) for n, m in enumerate(fl)):
+            rep.dist("typedef_order:missing_before_valid_in_payload")
+        cat_fl = [m for _i, m in td["defs"]]
+        if any(m and not all(cat_fl[n:]) for n, m in enumerate(cat_fl)):
+            rep.dist("typedef_order:missing_before_valid_in_catalogue")
+        pos = [k for k, x in enumerate(ap) if x is a][0]
+        role = ("rows" if pos == len(ap) - 1 else "table") if len(ap) == 1 or case.get("ca_as_0th") else \
+            ("columns" if pos == len(ap) - 1 else "rows" if pos == len(ap) - 2 else "table")
+        rep.dist("typedef_order:on_" + role)
+    if len(tds) > 1:
+        rep.dist("typedef_order:several_dimensions")
 
 
 def gen_cases(tier, seed):
     """the std cases come first and from their own stream, so that they are the cases the check
     always ran; the new families draw from streams of their own"""
     n_std, n_na, n_nub, n_typed = (260, 150, 24, 130) if tier == "quick" else (4000, 2400, 200, 2000)
+    n_td = 170 if tier == "quick" else 2600
     rng = random.Random(seed)
     cases = [cu.gen_case(rng, k) for k in range(n_std)]
     rng_na = random.Random(seed * 7 + 1)
@@ -373,6 +553,11 @@ def gen_cases(tier, seed):
     cases += [sh.gen_nub_case(rng_nub, n_std + n_na + k) for k in range(n_nub)]
     rng_t = random.Random(seed * 7 + 3)
     cases += [sh.gen_typed_case(rng_t, n_std + n_na + n_nub + k) for k in range(n_typed)]
+    rng_td = random.Random(seed * 7 + 4)
+    forced_td = ["1d", "2d", "3d", "ca", "ca3"]
+    cases += [sh.gen_tdorder_case(rng_td, n_std + n_na + n_nub + n_typed + k,
+                                  shape_class=forced_td[k] if k < len(forced_td) else None)
+              for k in range(n_td)]
     return cases
 
 
